@@ -32,6 +32,7 @@ type c01Op struct {
 	FragMode int       `json:"frag,omitempty"`
 	// mpu: CopyPart = the last part is an UploadPartCopy of a range of key Src; Algo = the checksum
 	// algorithm the upload is created with (every uploaded part then carries that checksum)
+	CkFull   bool `json:"ck_full,omitempty"` // mpu: checksum type FULL_OBJECT (crc algorithms)
 	CopyPart bool `json:"copy_part,omitempty"`
 	CopyFrom int  `json:"copy_from,omitempty"`
 	CopyLen  int  `json:"copy_len,omitempty"`
@@ -134,6 +135,14 @@ func (c01) Gen(seed uint64, run int, tier string) *core.Case {
 			op.Hdrs, op.Meta, op.Tags = genContentHeaders(r), genMeta(r), genTags(r)
 			if r.IntN(2) == 0 {
 				op.Algo = s3c.TrailerAlgos[r.IntN(len(s3c.TrailerAlgos))]
+				if strings.HasPrefix(op.Algo, "crc") && r.IntN(2) == 0 {
+					// one checksum over the whole object, not a checksum of part checksums
+					op.CkFull = true
+					if np == 1 && big < 1 && r.IntN(2) == 0 {
+						op.Parts = []int{5 << 20, 1 + pickSize(r, 100000)}
+						big++
+					}
+				}
 			}
 			if r.IntN(3) == 0 {
 				var ws []int
@@ -425,6 +434,9 @@ func (c01) Exec(c *core.Case) (out *core.Outcome) {
 			}
 			if op.Algo != "" {
 				h = append(h, KV{K: "X-Amz-Checksum-Algorithm", V: strings.ToUpper(op.Algo)})
+				if op.CkFull {
+					h = append(h, KV{K: "X-Amz-Checksum-Type", V: "FULL_OBJECT"})
+				}
 			}
 			res := cl.Do(s3c.CreateMPU(bkt, key, h...))
 			if !res.Resp.OK() {
@@ -609,7 +621,7 @@ func (c01) Exec(c *core.Case) (out *core.Outcome) {
 					viol(op, i, "attrs", fmt.Sprintf("attributes checksum %s=%s, want %s", want.CkAlgo, got, want.CkVal))
 				}
 			}
-			if at.Checksum != nil && !want.MP && at.Checksum.ChecksumType != "COMPOSITE" {
+			if at.Checksum != nil && (!want.MP || at.Checksum.ChecksumType == "FULL_OBJECT") && at.Checksum.ChecksumType != "COMPOSITE" {
 				// whatever checksum is reported, of whichever algorithm, is the checksum of the bytes GET returns
 				// (a value declared COMPOSITE is a checksum of part checksums and is not judged)
 				for _, a := range s3c.TrailerAlgos {
